@@ -41,7 +41,7 @@ CHUNK = 250
 def generate(r, tier):
     engine = r.choice(["sync", "loop"])
     is_async = engine == "loop"
-    world = gen.gen_world(r, is_async, nfuncs=(1, 3), with_class=0.7, forms=r.random() < 0.3, async_methods=is_async and r.random() < 0.5, mixed=True)
+    world = gen.gen_world(r, is_async, nfuncs=(1, 3), with_class=0.7, forms=r.random() < 0.3, async_methods=is_async and r.random() < 0.5, mixed=True, subclass=0.4)
     units = gen.units_of(world)
     profile = {
         "p_falsy": r.choice([0.0, 0.2, 0.4]),
@@ -217,6 +217,7 @@ def execute(scn):
             uniq.append(v)
     stats = dict(st)
     stats["events"] = len(run.log)
+    stats["state_sigs"] = [common.h64(x) for x in run.states]
     stats["calls"] = len(run.txs)
     stats["reentrant_calls"] = nre
     stats["switch_sig"] = common.h64(common.switch_signature(run.log))
